@@ -94,6 +94,8 @@ func (ctx *Ctx) cloop(r *node, _ []node) {
 			ctx.Err = ErrWrongLoopOp
 			break
 		}
+		// Nested loops append to the counters' storage and may move it: point the counter var to the counter again.
+		ctx.SetStatic(byteconv.B2S(r.loopCnt), &ctx.bufLC[idxLC])
 
 		// Handle break/continue cases.
 		if err == ErrBreakLoop || lerr == ErrLBreakLoop {
